@@ -268,6 +268,20 @@ class P8Formatter(BaseFormatter):
             else:
                 raise InvalidP8SectionError(section)
 
+        # PICO-8 leaves out the trailing empty rows of a section when it
+        # saves a .p8 file. Fill in what is missing so that every region
+        # has its full size.
+        empty_game = Game.make_empty_game()
+        for section in ('gfx', 'gff', 'map', 'sfx', 'music'):
+            data = getattr(new_game, section)._data
+            empty_data = getattr(empty_game, section)._data
+            if len(data) < len(empty_data):
+                data.extend(empty_data[len(data):])
+        if new_game.label is not None:
+            data = new_game.label._data
+            if len(data) < len(empty_game.label._data):
+                data.extend(empty_game.label._data[len(data):])
+
         return new_game
 
     @classmethod
